@@ -484,7 +484,7 @@ def replay_fro(seed):
     want = float(np.sqrt(np.sum(A4 ** 2)))
     for X in (rt.q_from4(A4), rt.sparse_from4(A4)):
         got = float(u.quat_frobenius_norm(X))
-        if abs(got - want) > 1e-12 * max(1, want):
+        if not (abs(got - want) <= 1e-12 * max(1, want)):
             return {"failed": True, "A": A4, "got": got, "want": want}
     return {"failed": False}
 
